@@ -45,20 +45,30 @@ def optInt (j : Json) : Except String (Option Int) :=
   | .null => pure none
   | _ => do pure (some (← jInt j))
 
+/-- `{"name": "rad", "deg": "p/q", "fits": true}`; absent = degrees. -/
+def unitOfJson (j : Json) : Except String AUnit :=
+  match j with
+  | .null => pure AUnit.degree
+  | _ => do pure ⟨(← fStr j "name").toList, ← fRat j "deg", ← fBool j "fits"⟩
+
+def unitToJson (u : AUnit) : Json := .str (String.ofList u.name)
+
 def regOfJson (j : Json) : Except String Reg := do
   pure { kind := ← kindOfJson (← field j "kind"),
          sky := ← fBool j "sky",
          xs := ← fRats j "xs", ys := ← fRats j "ys", params := ← fRats j "params",
          angle := ← optRat (fieldD j "angle" .null),
          incl := ← inclOfJson (fieldD j "incl" (.str "absent")),
-         comp := ← optInt (fieldD j "comp" .null) }
+         comp := ← optInt (fieldD j "comp" .null),
+         aunit := ← unitOfJson (fieldD j "aunit" .null) }
 
 def regToJson (r : Reg) : Json :=
   Json.mkObj [("kind", kindToJson r.kind), ("sky", .bool r.sky), ("xs", ofRats r.xs),
     ("ys", ofRats r.ys), ("params", ofRats r.params),
     ("angle", match r.angle with | some a => ofRat a | none => .null),
     ("incl", inclToJson r.incl),
-    ("comp", match r.comp with | some c => ofInt c | none => .null)]
+    ("comp", match r.comp with | some c => ofInt c | none => .null),
+    ("aunit", match r.angle with | some _ => unitToJson r.aunit | none => .null)]
 
 def numOfJson (j : Json) : Except String Num :=
   match j with
@@ -104,12 +114,14 @@ def tableOfJson (j : Json) : Except String Table := do
   let cols := (← (← fArr j "cols").mapM jStr).map String.toList
   let rows ← (← fArr j "rows").mapM rowOfJson
   let obj ← jBool (fieldD j "comp_object" (.bool false))
-  pure ⟨cols, rows, obj⟩
+  let ru ← unitOfJson (fieldD j "rotang_unit" .null)
+  pure ⟨cols, rows, obj, ru⟩
 
 def tableToJson (t : Table) : Json :=
   Json.mkObj [("cols", .arr (t.cols.map nameToJson).toArray),
               ("rows", .arr (t.rows.map (rowToJson t.cols)).toArray),
-              ("comp_object", .bool t.compObject)]
+              ("comp_object", .bool t.compObject),
+              ("rotang_unit", if t.rows.isEmpty then .null else unitToJson t.rotangUnit)]
 
 def errStr : Err → String
   | .fitsParserError => "FITSParserError"
@@ -117,6 +129,7 @@ def errStr : Err → String
   | .indexError => "IndexError"
   | .typeError => "TypeError"
   | .keyError => "KeyError"
+  | .unitScaleError => "UnitScaleError"
   | .nanParameter => "NaN-parameter(outside the model)"
 
 def parsedToJson : Except Err (List Reg) → Json
@@ -128,15 +141,15 @@ def warnToJson : Warn → Json
   | .unsupportedSkipped k => .str ("unsupported:" ++ String.ofList k.className)
 
 /-- the variant comes from the model (`Variant.current`) unless the request overrides it
-(`"variant": [f8, f9, f10, f121]`, used only to try the model of the patched code against a
+(`"variant": [f8, f9, f10, f121, f122]`, used only to try the model of the patched code against a
 patched copy of the sources). -/
 def variantOf (j : Json) : Except String Variant :=
   match j.getObjVal? "variant" with
   | .error _ => pure Variant.current
   | .ok a => do
     match ← (← jArr a).mapM jBool with
-    | [a, b, c, d] => pure ⟨a, b, c, d⟩
-    | _ => .error "variant needs 4 bools"
+    | [a, b, c, d, e] => pure ⟨a, b, c, d, e⟩
+    | _ => .error "variant needs 5 bools"
 
 def refToJson (r : ColRef) : Json :=
   .str (String.ofList r.col.name ++ (match r.idx with | some i => toString i | none => ""))
@@ -172,7 +185,8 @@ def c12Ops : List (String × Handler) := [
       ("unsupported_shapes", .arr (unsupportedShapes.map nameToJson).toArray),
       ("valid_columns", .arr (validColumns.map nameToJson).toArray),
       ("variant", .arr #[.bool Variant.current.f8, .bool Variant.current.f9,
-                         .bool Variant.current.f10, .bool Variant.current.f121])]))
+                         .bool Variant.current.f10, .bool Variant.current.f121,
+                         .bool Variant.current.f122])]))
 ]
 
 end Driver
